@@ -30,7 +30,7 @@ theorem drainWindows_total (ws : List (Nat × Nat)) (g : List Gr) : ∃ r, drain
     rw [h2]
     exact ⟨_, rfl⟩
 
-theorem getRegisterContent_total (d : Bool) (lb : LB) (mk : MK) : ∃ r, getRegisterContent d lb mk = .ok r := by
+theorem getRegisterContent_total (d : OpK) (lb : LB) (mk : MK) : ∃ r, getRegisterContent d lb mk = .ok r := by
   have hmap : ∀ {α β : Type} (x : Except VErr α) (f : α → β), (∃ r, x = .ok r) → ∃ r, x.map f = .ok r := by
     intro α β x f ⟨r, hr⟩; exact ⟨f r, by rw [hr]; rfl⟩
   have hdr : ∀ s e, ∃ r, drainGs lb.gs s e = .ok r := fun s e => ⟨_, rfl⟩
@@ -68,12 +68,13 @@ or not), every register name and every register bank. -/
 theorem delete_change_yank_never_panic (lb : LB) (mk : MK) (reg : RegName) (regs : Regs) :
     (∃ o, execVerbText .delete mk reg lb regs = .ok o) ∧ (∃ o, execVerbText .change mk reg lb regs = .ok o) ∧
     (∃ o, execVerbText .yank mk reg lb regs = .ok o) := by
-  obtain ⟨r1, h1⟩ := getRegisterContent_total true lb mk
-  obtain ⟨r2, h2⟩ := getRegisterContent_total false lb mk
-  refine ⟨⟨⟨r1.2.flatten, writeReg regs reg r1.1⟩, ?_⟩, ⟨⟨r1.2.flatten, writeReg regs reg r1.1⟩, ?_⟩,
+  obtain ⟨r1, h1⟩ := getRegisterContent_total .delete lb mk
+  obtain ⟨r3, h3⟩ := getRegisterContent_total .change lb mk
+  obtain ⟨r2, h2⟩ := getRegisterContent_total .yank lb mk
+  refine ⟨⟨⟨r1.2.flatten, writeReg regs reg r1.1⟩, ?_⟩, ⟨⟨r3.2.flatten, writeReg regs reg r3.1⟩, ?_⟩,
     ⟨⟨lb.gs.flatten, writeReg regs reg r2.1⟩, ?_⟩⟩
   · simp [execVerbText, h1, Except.map]
-  · simp [execVerbText, h1, Except.map]
+  · simp [execVerbText, h3, Except.map]
   · simp [execVerbText, h2, Except.map]
 
 /-- `this_line()` (`line_bounds(cursor_line_number()).unwrap()`) is always `Some` for a cursor inside the
